@@ -365,11 +365,22 @@ func canon32(a map[string]map[string][]int32) string {
 // instead what every member ends up with in Generation.Assignments (after fetchOffsets and makeAssignments).  Repeated to sample the
 // iteration orders of the Go maps involved (GroupMemberAssignments, the per-member topic maps, RackAffinity's maps);
 // every distinct outcome is a case.  members[0] is the leader.
-func glue(op string, ms []member, ps []part, repeat int) {
+func glue(op string, ms []member, ps []part, repeat int) { glueMissing(op, ms, ps, nil, repeat) }
+
+// glueMissing: ops w<balancer> <members> <parts> <missing topics>: the cluster does not (yet) have the listed topics
+// (the Metadata answer carries UnknownTopicOrPartition for them); impl = Generation.Assignments of every member.
+func glueMissing(op string, ms []member, ps []part, missing []int, repeat int) {
 	if len(ms) == 0 {
 		return
 	}
 	req := op + " " + fmtMembers(ms) + " " + fmtParts(ps)
+	var missNames []string
+	if op[0] == 'w' {
+		req += " " + ints(missing)
+		for _, t := range missing {
+			missNames = append(missNames, topicName(t))
+		}
+	}
 	_, gp := toGo(ms, ps)
 	vm := make([]kafka.VerifC14Member, len(ms))
 	for i, m := range ms {
@@ -387,11 +398,11 @@ func glue(op string, ms []member, ps []part, repeat int) {
 					res = "panic"
 				}
 			}()
-			got, final, _, err := kafka.VerifC14Round(protoOf["g"+op[1:]], vm, gp)
+			got, final, _, err := kafka.VerifC14RoundMissing(protoOf["g"+op[1:]], vm, gp, missNames)
 			if err != nil {
-				return "panic"
+				return "error"
 			}
-			if op[0] == 'v' { // Generation.Assignments after fetchOffsets / makeAssignments
+			if op[0] == 'v' || op[0] == 'w' { // Generation.Assignments after fetchOffsets / makeAssignments
 				return canon(kafka.GroupMemberAssignments(final))
 			}
 			return canon32(got)
@@ -606,6 +617,16 @@ func main() {
 		glue("grr", ms, ps, glueRepeat)
 		glue("grack", ms, ps, glueRepeat)
 		glue([]string{"vrange", "vrr", "vrack"}[k%3], ms, ps, glueRepeat)
+		if k%4 == 0 && nt >= 2 { // one subscribed topic does not exist yet: drop its partitions from the cluster
+			miss := r.Intn(nt)
+			var ps2 []part
+			for _, p := range ps {
+				if p.topic != miss {
+					ps2 = append(ps2, p)
+				}
+			}
+			glueMissing([]string{"wrange", "wrr", "wrack"}[(k/4)%3], ms, ps2, []int{miss}, 1)
+		}
 	}
 
 	// ---- 2b. byte level
@@ -621,6 +642,11 @@ func main() {
 		nLife = 60
 	}
 	lifeCases(r, nLife)
+	nTrace := 6
+	if thorough {
+		nTrace = 40
+	}
+	simTraceCases(r, nTrace)
 
 	// the two regression witnesses of finding C14-D30 (Props/C14.lean §5)
 	{
